@@ -47,7 +47,10 @@ func genEdit(r *rng.R, flavor string) Edit {
 	}
 	switch f {
 	case "object":
-		switch r.Pick(10, 6, 2, 2, 1, 1, 1) {
+		switch r.Pick(10, 6, 2, 2, 1, 1, 1, 1) {
+		case 7:
+			// a date given in some zone other than the process's, with nanoseconds
+			return Edit{K: "odate", Key: keys[r.Intn(len(keys))], V: r.Intn(1000)}
 		case 0:
 			return Edit{K: "oset", Key: keys[r.Intn(len(keys))], V: r.Intn(100)}
 		case 1:
